@@ -20,7 +20,7 @@ fn nontrivial(labels: &[String], n_packets_with_payload: usize) -> bool {
 }
 
 fn inproc_case(t: &mut Tape, _w: &Worker) -> CaseResult {
-    let cs = gen::gen_conf_stream(t, &ConfOpts::default());
+    let cs = gen::gen_conf_stream(t, &ConfOpts { allow_fatal_lanes: true, ..Default::default() });
     let (bytes, lay) = cs.stream.encode();
     let mut out = CaseOut::default();
     // every link alone through one validator, in all five modes
@@ -75,7 +75,7 @@ fn inproc_case(t: &mut Tape, _w: &Worker) -> CaseResult {
 
 fn cli_case(t0: &mut Tape, w: &Worker) -> CaseResult {
     let mut ot = t0.fork(64); // options come from their own tape region
-    let mut cs = gen::gen_conf_stream(t0, &ConfOpts::default());
+    let mut cs = gen::gen_conf_stream(t0, &ConfOpts { allow_fatal_lanes: true, ..Default::default() });
     let t = &mut ot;
     // some streams are padded to an exact multiple of the 100-packet batch
     match t.below(8) {
